@@ -16,3 +16,5 @@ CONSTANTS
   RecordHist = TRUE
   Canon = FALSE
   Coarse = FALSE
+  EmitRecords <- NoEmit
+VIEW TView
